@@ -21,7 +21,7 @@ func TestMain(m *testing.M) {
 	os.Exit(code)
 }
 
-type flagCase struct {
+type vfFlagCase struct {
 	Property       string  `json:"property,omitempty"`
 	Kind           string  `json:"kind"`
 	Project        string  `json:"project"`
@@ -37,7 +37,7 @@ type flagCase struct {
 	Failure        string  `json:"failure,omitempty"`
 }
 
-func checkFlags(c *flagCase) (failure string, accepted bool) {
+func vfCheckFlags(c *vfFlagCase) (failure string, accepted bool) {
 	q := math.Float64frombits(c.QPSBits)
 	*project, *opsProject, *instance_name, *database_name, *instanceConfig = c.Project, c.OpsProject, c.Instance, c.Database, c.InstanceConfig
 	*qps, *numRows, *payloadSize, *probeType = q, c.NumRows, c.PayloadSize, c.ProbeType
@@ -85,9 +85,9 @@ func checkFlags(c *flagCase) (failure string, accepted bool) {
 	return "", true
 }
 
-var qpsPool = []float64{1, 1, 0.5, 1000, 1000.0001, 999.9999, 0, -1, -0.0, 1e-300, 5e-324, 1e-10, 1.1e-10, 1.0842e-10, 1.0843e-10, 1e-9, math.NaN(), math.Inf(1), math.Inf(-1), math.MaxFloat64, 2.2250738585072014e-308}
+var vfQpsPool = []float64{1, 1, 0.5, 1000, 1000.0001, 999.9999, 0, -1, -0.0, 1e-300, 5e-324, 1e-10, 1.1e-10, 1.0842e-10, 1.0843e-10, 1e-9, math.NaN(), math.Inf(1), math.Inf(-1), math.MaxFloat64, 2.2250738585072014e-308}
 
-func genName(rt *rapid.T, label string) string {
+func vfGenName(rt *rapid.T, label string) string {
 	switch rapid.IntRange(0, 29).Draw(rt, label+"class") {
 	case 0:
 		return ""
@@ -103,15 +103,15 @@ func genName(rt *rapid.T, label string) string {
 	return rapid.StringMatching(`[-_.a-zA-Z0-9]{1,12}`).Draw(rt, label)
 }
 
-func genFlags(rt *rapid.T) *flagCase {
-	q := rapid.SampledFrom(qpsPool).Draw(rt, "qps")
+func vfGenFlags(rt *rapid.T) *vfFlagCase {
+	q := rapid.SampledFrom(vfQpsPool).Draw(rt, "qps")
 	switch rapid.IntRange(0, 5).Draw(rt, "qpsrand") {
 	case 0:
 		q = rapid.Float64().Draw(rt, "qpsany")
 	case 1, 2, 3:
 		q = rapid.Float64Range(1e-10, 1000).Draw(rt, "qpsvalid")
 	}
-	c := &flagCase{Kind: "flags", Project: genName(rt, "project"), OpsProject: genName(rt, "ops"), Instance: genName(rt, "instance"), Database: genName(rt, "database"), InstanceConfig: genName(rt, "cfg"),
+	c := &vfFlagCase{Kind: "flags", Project: vfGenName(rt, "project"), OpsProject: vfGenName(rt, "ops"), Instance: vfGenName(rt, "instance"), Database: vfGenName(rt, "database"), InstanceConfig: vfGenName(rt, "cfg"),
 		QPSBits: math.Float64bits(q), QPS: fmt.Sprint(q), NumRows: rapid.SampledFrom([]int{1, 1, 1, 1000, 1000, 5, 0, -1, math.MaxInt32}).Draw(rt, "rows"), PayloadSize: rapid.SampledFrom([]int{1, 1024, 1024, 7, 0, -1}).Draw(rt, "payload"),
 		ProbeType: rapid.SampledFrom([]string{"noop", "noop", "noop", "stale_read", "stale_read", "strong_query", "strong_query", "stale_query", "stale_query", "dml", "dml", "read_write", "read_write", "", "NOOP", "noop ", "nope"}).Draw(rt, "ptype")}
 	if rapid.IntRange(0, 2).Draw(rt, "project-colon") == 0 {
@@ -122,8 +122,8 @@ func genFlags(rt *rapid.T) *flagCase {
 
 func TestC18Flags(t *testing.T) {
 	st := hx.For("C18")
-	run := func(c *flagCase) string {
-		f, acc := checkFlags(c)
+	run := func(c *vfFlagCase) string {
+		f, acc := vfCheckFlags(c)
 		if f != "" {
 			st.Failed()
 			c.Failure, c.Property = f, "C18"
@@ -140,7 +140,7 @@ func TestC18Flags(t *testing.T) {
 		return ""
 	}
 	if p := hx.ReplayIn(); p != "" {
-		var c flagCase
+		var c vfFlagCase
 		if err := hx.Load(p, &c); err != nil {
 			t.Fatal(err)
 		}
@@ -153,7 +153,7 @@ func TestC18Flags(t *testing.T) {
 		return
 	}
 	for _, p := range hx.Corpus("C18") {
-		var c flagCase
+		var c vfFlagCase
 		if hx.Load(p, &c) == nil && c.Kind == "flags" {
 			c.Failure = ""
 			if f := run(&c); f != "" {
@@ -163,7 +163,7 @@ func TestC18Flags(t *testing.T) {
 		}
 	}
 	rapid.Check(t, func(rt *rapid.T) {
-		if f := run(genFlags(rt)); f != "" {
+		if f := run(vfGenFlags(rt)); f != "" {
 			rt.Fatalf("%s", f)
 		}
 	})
@@ -174,8 +174,8 @@ func FuzzFlags(f *testing.F) {
 	f.Add("google.com:abc", "abc", "abc", "regional-test-1", uint64(0x3ff0000000000000), "noop")
 	f.Add("a/b", "x\n", "..", "", uint64(1), "noop")
 	f.Fuzz(func(t *testing.T, p, i, d, ic string, bits uint64, pt string) {
-		c := &flagCase{Kind: "flags", Project: p, Instance: i, Database: d, InstanceConfig: ic, QPSBits: bits, NumRows: 1, PayloadSize: 1, ProbeType: pt}
-		if f, _ := checkFlags(c); f != "" {
+		c := &vfFlagCase{Kind: "flags", Project: p, Instance: i, Database: d, InstanceConfig: ic, QPSBits: bits, NumRows: 1, PayloadSize: 1, ProbeType: pt}
+		if f, _ := vfCheckFlags(c); f != "" {
 			c.Failure, c.Property = f, "C18"
 			hx.WriteReplay("C18", c)
 			t.Fatal(f)
